@@ -52,14 +52,14 @@ def run_layout(job):
                     new = ln.split("New Version: ", 1)[1].strip()
             exc = err[-300:] if "Traceback" in err else None
         else:
-            r = drive.cli(["update"] + lay.flags, cwd=proj.root)
+            r = drive.cli(["update"] + ([["-v"], ["-vv"]][seed % 2] if seed % 7 == 0 else []) + lay.flags, cwd=proj.root)
             exit_code, new, exc = r.exit, r.new_version(), r.exc
         after = proj.snapshot(with_mtime=True)
     b = {k: v[0] for k, v in before.items()}
     a = {k: v[0] for k, v in after.items()}
     evs = layouts.file_events(lay, b, a, exit_code, new)
     # the config file itself: current_version must equal the announced version (black box, no spec operator needed)
-    cfg_after = a.get("bumpver.toml", b"").decode("utf-8", "replace")
+    cfg_after = a.get(lay.cfg_format, b"").decode("utf-8", "replace")
     facts = dict(seed=seed, vp=lay.vp, old=lay.old_version, new=new, exit=exit_code, exc=exc, flags=lay.flags, locale_c=locale_c,
                  cfg_has_new=(new is not None and ('current_version = "%s"' % new) in cfg_after),
                  untouched_changed=[k for k in lay.unconfigured if before.get(k) != after.get(k)],
